@@ -231,6 +231,15 @@ def trimmed(x, p):
         elif s_ == 'music':
             x.check('omitted music patterns are the silent default',
                     rest == MUSIC_DEFAULT * (len(rest) // 4))
+        elif s_ == 'sfx':
+            # an unused pattern: no notes, editor mode 0, no loop, speed 16 -
+            # speed 1 for pattern 0 (the rows 0001000... / 0010000... of a
+            # blank cart as PICO-8 writes it, see tests/testdata/empty.p8)
+            exp_rest = []
+            for r in range(len(mems), 64):
+                exp_rest += [0] * 64 + [0, 1 if r == 0 else 16, 0, 0]
+            x.check('omitted sfx patterns are the blank-cart defaults '
+                    '(speed 16, pattern 0: speed 1)', rest == exp_rest)
     # the cart memory image picotool would store in a .p8.png
     image = b''.join(bytes(getattr(g, s_).to_bytes())
                      for s_ in ('gfx', 'map', 'gff', 'music', 'sfx'))
